@@ -729,9 +729,43 @@ static std::vector<Deviation> deviations(World& w, const Snap& b, bool cyc_befor
         tc.clear();
         tr.clear();
         std::string got = "T[" + join(x) + "]U[" + join(y) + "]", want = naive_top(w);
-        if (got != want)
-            note(v, 3, "top_level:name-keyed-after-remove",
+        if (got != want) {
+            // the recorded defect: dependencies are kept in a map keyed by NAME, so a member that is referenced drops out of the
+            // map (and is reported top level) only when another referenced object bears the same name.  Any other difference
+            // from the identity-based answer is a different failure.
+            std::set<int> refd_c, refd_r;
+            for (int i : carr(w)) {
+                Cell* c = w.cells[i];
+                for (uint64_t j = 0; j < c->reference_array.count; j++) {
+                    Reference* r = c->reference_array[j];
+                    if (r->type == ReferenceType::Cell) refd_c.insert(w.cid[r->cell]);
+                    if (r->type == ReferenceType::RawCell) refd_r.insert(w.rid[r->rawcell]);
+                }
+            }
+            for (int i : rarr(w))
+                for (uint64_t j = 0; j < w.raws[i]->dependencies.count; j++) refd_r.insert(w.rid[w.raws[i]->dependencies[j]]);
+            bool explained = true;
+            for (int i : carr(w)) {
+                bool want_top = !refd_c.count(i);
+                if (want_top == (topc.count(i) > 0)) continue;
+                bool twin = false;
+                if (!want_top)
+                    for (int j : refd_c)
+                        if (j != i && strcmp(w.cells[j]->name, w.cells[i]->name) == 0) twin = true;
+                if (!twin) explained = false;
+            }
+            for (int i : rarr(w)) {
+                bool want_top = !refd_r.count(i);
+                if (want_top == (topr.count(i) > 0)) continue;
+                bool twin = false;
+                if (!want_top)
+                    for (int j : refd_r)
+                        if (j != i && strcmp(w.raws[j]->name, w.raws[i]->name) == 0) twin = true;
+                if (!twin) explained = false;
+            }
+            note(v, 3, explained ? "top_level:name-keyed-after-remove" : "top_level:wrong-set",
                  "after `" + op + "` top_level gives " + got + " but the members no member points to are " + want);
+        }
         for (int i : ca) {
             bool hit = false;
             for (size_t j = 0; j < a.res[i].size(); j++) {
@@ -753,8 +787,10 @@ static std::vector<Deviation> deviations(World& w, const Snap& b, bool cyc_befor
 }
 
 static void keep_best(Deviation& best, const std::vector<Deviation>& v) {
-    for (auto& d : v)
-        if (best.rank < 0 || d.rank < best.rank) best = d;
+    for (auto& d : v) {
+        if (best.key == "top_level:wrong-set") return;  // a failure that is not one of the recorded defects is never displaced
+        if (best.rank < 0 || d.rank < best.rank || d.key == "top_level:wrong-set") best = d;
+    }
 }
 
 // ---------------------------------------------------------------------------------------------
@@ -1150,8 +1186,11 @@ static void replay_case(Out& out, const std::string& payload) {
     Sections d = dump(w);
     std::string result = flat(d);
     Deviation dev = {-1, "", ""};
+    std::string sofar = setup + "|";
     for (auto& s : split(rest, ';')) {
         if (words(s).empty()) continue;
+        guard_begin(out, "hist", sofar + s, "c16-crash");
+        sofar += s + ";";
         Snap before = snap(w);
         bool cyc = store_has_cycle(w);
         exec_op(w, s);
@@ -1159,6 +1198,7 @@ static void replay_case(Out& out, const std::string& payload) {
         result += " | " + compress(nd, &d);
         d = nd;
         keep_best(dev, deviations(w, before, cyc, s));
+        guard_end();
     }
     std::string id = out.add("hist", payload);
     out.I(id, result);
@@ -1239,6 +1279,11 @@ static void gen_case(Out& out, Rng& g, bool legit) {
         std::string op;
         for (int tries = 0; tries < 20 && op.empty(); tries++) op = gen.draw();
         if (op.empty()) break;
+        {
+            std::string sofar = setup_text + "|";
+            for (auto& o2 : ops) sofar += o2 + ";";
+            guard_begin(out, "hist", sofar + op, "c16-crash");
+        }
         Snap before = snap(w);
         bool cyc = store_has_cycle(w);
         exec_op(w, op);
@@ -1254,6 +1299,7 @@ static void gen_case(Out& out, Rng& g, bool legit) {
             // finding key = first word of the failure text (stable across seeds)
             if (!f.empty()) pres = "c16-" + words(f)[0] + " step " + std::to_string(step) + " after `" + op + "`: " + f;
         }
+        guard_end();
     }
     out.count(legit ? "histories:within-preconditions" : "histories:arbitrary");
     out.count("ops", (long)ops.size());
@@ -1279,7 +1325,7 @@ int main(int argc, char** argv) {
         return 0;
     }
     for (auto& kp : load_corpus(argv[4]))
-        if (kp.first == "hist") replay_case(out, kp.second);
+        if (kp.first == "hist" || kp.first == "hist-crash") replay_case(out, kp.second);
     Rng g(seed);
     int n = tier == "thorough" ? 40000 : 800;
     for (int i = 0; i < n; i++) gen_case(out, g, g.chance(55));
